@@ -240,6 +240,7 @@ impl SimCtx {
                 "ok".into()
             }
             ["setpc", v] => { let Some(v) = h(v) else { return "bad-op".into() }; self.sim.pc = v; "ok".into() }
+            ["callsub", v] => { let Some(v) = h(v) else { return "bad-op".into() }; let r = self.with_locks(|s| s.call_subroutine(v)); Self::res_str(r) }
             ["hostwrite", a, d, i, c @ ..] => {
                 let (Some(a), Some(d), Some(i), Some(c)) = (h(a), h(d), h(i), ctx(c)) else { return "bad-op".into() };
                 let r = self.with_locks(|s| s.write_mem(a, Word::verif_from_parts(d, i), c));
